@@ -10,7 +10,8 @@ import flowpaths.abstractwalkmodeldigraph as awm
 LEVEL = "exploration"
 RULE = ("case = one digraph (random/corpus cyclic shape, or catalogue graph in thorough) + a batch of Eulerian s-t multiplicity "
         "assignments (random revisiting walks, multi-layer, values perturbed by +-1e-7; thorough: ALL walk vectors with cap 3); "
-        "non-trivial = assignment with a repeated vertex or multiplicity>1; distinct = (edge list, multiplicity vector)")
+        "plus (condense) random walks of node-weighted graphs with self-loops, written on the node expansion and condensed back by the real "
+        "NodeExpandedDiGraph.get_condensed_paths; non-trivial = assignment with a repeated vertex or multiplicity>1; distinct = (edge list, multiplicity vector)")
 CASE_TIMEOUT = {"quick": 120, "thorough": 600}
 REQUIRED_OBS = {"c14.assignments_judged": 200, "c14.revisiting": 50}
 ASSUMPTIONS = ["assignments are generated as edge multisets of real walks or by the exhaustive Euler-vector enumerator, i.e. inside the property's domain"]
@@ -46,6 +47,29 @@ def gen_cases(tier, seed):
         rng = gen.rng_for("C14", seed, i)
         nodes, edges = gen.cyc_any(rng, 12)
         cases.append({"kind": "random", "spec": gen.spec(nodes, edges), "rs": f"C14:{seed}:{i}", "n": 120 if tier == "quick" else 400, "maxlen": rng.choice([6, 12, 25])})
+    # the same corpus graphs with the edges inserted in another order (the first greedy walk follows the adjacency order), and small DENSE graphs
+    # with self-loops on several vertices (a closed walk of length one spliced into a walk that passes its vertex more than once)
+    for i in range(40 if tier == "quick" else 1500):
+        rng = gen.rng_for("C14d", seed, i)
+        if i % 3 == 0:
+            nodes, edges = CORPUS[rng.randrange(len(CORPUS))]; edges = list(edges)
+        else:
+            inner = ["a", "b", "c", "d"][:rng.randint(2, 4)]; nodes = ["s"] + inner + ["t"]
+            edges = [("s", rng.choice(inner))] + [(u, v) for u in inner for v in inner if rng.random() < (0.8 if u == v else 0.6)] + [(rng.choice(inner), "t")]
+            edges = list(dict.fromkeys(edges))
+            if rng.random() < 0.4:
+                edges += [e for e in [("s", rng.choice(inner)), (rng.choice(inner), "t")] if e not in edges]
+            # keep the part that lies on walks from s to t
+            H_ = nx.DiGraph(edges); keep_ = (nx.descendants(H_, "s") | {"s"}) & (nx.ancestors(H_, "t") | {"t"})
+            edges = [e for e in edges if e[0] in keep_ and e[1] in keep_]; nodes = [v for v in nodes if v in keep_]
+            if "s" not in keep_ or "t" not in keep_ or not edges:
+                nodes, edges = CORPUS[3]; edges = list(edges)
+        rng.shuffle(edges)
+        cases.append({"kind": "random", "spec": gen.spec(nodes, edges), "rs": f"C14d:{seed}:{i}", "n": 150 if tier == "quick" else 400, "maxlen": rng.choice([8, 14, 25])})
+    # walks of a NODE-weighted graph: what the solver decided lives on the node-expanded graph (v.0 -> v.1 per visit of v); the walk handed to the
+    # caller visits every node exactly as often (a self-loop taken twice = three consecutive visits)
+    for i in range(30 if tier == "quick" else 1200):
+        cases.append({"kind": "condense", "rs": f"C14c:{seed}:{i}", "n": 60 if tier == "quick" else 150})
     # exhaustive Euler vectors with a cap
     m = 25 if tier == "quick" else 2000
     for i in range(m):
@@ -107,7 +131,58 @@ class _Tag(str):
         return "Tag." + str.__str__(self)
 
 
+def run_condense(case):
+    rng = gen.rng_for(case["rs"])
+    viol = []; obs = collections.Counter(); keys = set()
+    nodes, edges = gen.cyc_any(rng, 10)
+    if rng.random() < 0.6:
+        edges = list(dict.fromkeys(list(edges) + [(v, v) for v in nodes if rng.random() < 0.4]))
+    G = nx.DiGraph(); G.add_nodes_from(nodes); G.add_edges_from(edges)
+    for v in G.nodes:
+        G.nodes[v]["flow"] = rng.randint(0, 5)
+    starts = [v for v in G.nodes if G.in_degree(v) == 0] or list(G.nodes)[:1]
+    r = M.safe_call(fp.NodeExpandedDiGraph, G, node_flow_attr="flow")
+    if r[0] != "ok":
+        return {"viol": [{"sig": f"C14/node-expansion-raises/{r[1]}", "msg": f"{r[2]}; edges={edges}"}], "obs": {}, "nontrivial": False}
+    ne = r[1]
+    batch = []
+    for j in range(case["n"]):
+        v = rng.choice(starts); walk = [v]
+        for _ in range(rng.randint(0, 14)):
+            succ = list(G.successors(v))
+            if not succ:
+                break
+            v = rng.choice(succ) if rng.random() < 0.7 or v not in succ else v      # self-loops are taken often
+            walk.append(v)
+        batch.append(walk)
+    expanded = [[x for v in w for x in (v + ".0", v + ".1")] for w in batch]
+    bad = [(w, x) for w, x in zip(batch, expanded) if any(not ne.has_edge(a, b) for a, b in zip(x, x[1:]))]
+    if bad:
+        viol.append({"sig": "C14/node-expansion/walk-of-the-graph-is-no-walk-of-the-expansion", "msg": f"{bad[0]} edges={edges}"})
+    got = M.safe_call(ne.get_condensed_paths, [list(x) for x in expanded])
+    obs["c14.condensed_walks_judged"] += len(batch)
+    obs["c14.assignments_judged"] += len(batch)
+    if got[0] != "ok":
+        viol.append({"sig": f"C14/condense-raises/{got[1]}", "msg": f"{got[2]}; edges={edges}"})
+    else:
+        for w, c in zip(batch, got[1]):
+            rep = any(a == b for a, b in zip(w, w[1:]))
+            if len(set(w)) != len(w):
+                obs["c14.revisiting"] += 1
+            if rep:
+                obs["c14.condensed_walks_with_a_self_loop"] += 1
+            keys.add(tuple(w))
+            if list(c) != list(w):
+                viol.append({"sig": "C14/condensed-walk-differs" + ("/self-loop" if rep else ""), "msg": f"expanded walk of {w} condenses to {c}; edges={edges}"})
+                break
+    return {"viol": viol[:4], "obs": dict(obs), "nontrivial": obs["c14.revisiting"] > 0,
+            "keys": [hashlib.sha1(repr((edges, kk)).encode()).hexdigest()[:14] for kk in keys],
+            "sample": {"edges": edges, "kind": "condense", "walks": len(batch), "example": batch[0] if batch else None}}
+
+
 def run_case(case):
+    if case.get("kind") == "condense":
+        return run_condense(case)
     G = gen.build(case["spec"])
     if case.get("kind") == "random" and int(hashlib.sha1(repr(case.get("rs")).encode()).hexdigest(), 16) % 8 == 0:
         # the same graph with nodes of a str subclass (they pass the 'nodes must be strings' check and compare equal to the plain names)
